@@ -15,6 +15,8 @@ const devPkg = "pkg/scheduler/plugins/deviceshare"
 
 func c07(c *Ctx) {
 	r := c.R
+	r.Rule("PATH(tombstone): the delete handler treats a cache.DeletedFinalStateUnknown (delivered by value) like the object inside it: both reach the release, and no assertion to the pointer type exists")
+	c.Tombstone("PATH", devPkg, "nodeDeviceCache", "onPodDelete", "deletePod")
 	r.Decides("after every write of a device type's total or used ledger the free ledger is recomputed before the atomic section ends (free = total - used is re-established)")
 	r.Decides("the add and remove arms of the used ledger, the per-pod allocation set and the VF allocations are duals on the same amounts; the duplicate-event guard protects both arms; values stored into the ledgers are fresh copies (no aliasing between ledgers and per-pod records)")
 	r.Decides("a device is handed out only if it has non-zero resources and request <= free; allocation fails exactly when fewer than the desired number were found; the topology-aware GPU allocator requires request <= free and membership in the filtered device totals")
